@@ -6,7 +6,7 @@ Import ListNotations.
 Inductive denyflag := DPub | DSub | DCtx.
 
 Inductive guard :=
-| GP                        (* M_PARAM_ASSERT: a parameter check, -EINVAL *)
+| GP (cond : string)        (* M_PARAM_ASSERT(cond): a parameter check, -EINVAL; the condition as written in the source *)
 | GMA                       (* M_MOD_ASSERT: NULL / zombie / not this thread's context *)
 | GST (l : list mstate)     (* M_MOD_ASSERT_STATE: M_MOD_ASSERT, then the state must be one of l *)
 | GPERM (f : denyflag)      (* M_MOD_ASSERT_PERM: M_MOD_ASSERT, then the deny flag must be clear *)
